@@ -118,6 +118,13 @@ def run_case(case: Dict[str, Any], ctx) -> None:
     return run_comp(case, ctx)
 
 
+def _dynamo_internal(e: BaseException) -> bool:
+    """Errors PyTorch itself declares to be its own bug (observed: 'Guard failed on the same frame it was created. This is a bug -
+    please create an issue' after a graph break inside a module holding closures). Not attributable to unit-scaling: excluded, counted."""
+    msg = str(e)
+    return "This is a bug - please create an issue" in msg or type(e).__name__ == "InternalTorchDynamoError"
+
+
 def _compiled_ok(ctx, torch) -> bool:
     stats = torch._dynamo.utils.counters["stats"]
     n = stats.get("unique_graphs", 0)
@@ -176,6 +183,10 @@ def run_fn(case, ctx) -> None:
         yc = cf(*lc)
         gc = torch.autograd.grad(yc, [t for t in lc if t.requires_grad], up, allow_unused=True) if yc.requires_grad else []
     except Exception as e:
+        if _dynamo_internal(e):
+            ctx.count("excluded:torchdynamo-internal-error")
+            ctx.skip("TorchDynamo internal error (self-declared PyTorch bug)")
+            return
         ctx.violation(f"{key}:raises-only-when-compiled:{exc_key(e)}", repr(e)[:600], cfg=cfg, constraint=constraint, dtype=case["dtype"])
         return
     if not _compiled_ok(ctx, torch):
@@ -374,6 +385,10 @@ def run_comp(case, ctx) -> None:
         cm = torch.compile(m2, backend=backend)
         yc, gc = run(cm)
     except Exception as e:
+        if _dynamo_internal(e):
+            ctx.count("excluded:torchdynamo-internal-error")
+            ctx.skip("TorchDynamo internal error (self-declared PyTorch bug)")
+            return
         ctx.violation(f"{key}:raises-only-when-compiled:{exc_key(e)}", repr(e)[:600], steps=case["steps"], dtype=case["dtype"])
         return
     if not _compiled_ok(ctx, torch):
